@@ -56,6 +56,7 @@ fc8744a:C17
 fc8a7a4:C18
 4480891:C04,C01
 d61bc2a:C19
+306c68e:C03
 "
 [ -n "$REVERT_ONLY" ] && PAIRS="$REVERT_ONLY"
 for pair in $PAIRS; do
